@@ -31,7 +31,10 @@ import (
 
 const (
 	maxCU = 50 // SpecExpand.tla MaxCU
-	runs  = 6  // expansions per spec (determinism)
+	runs      = 6  // expansions per spec (determinism)
+	runsPaths = 64 // ... when the store holds collections that differ only in the internal path: tied sort
+	// keys come out in Go's map order, which for a small map is a rotation picked by a random offset (the
+	// most likely order has probability <= 7/8), so 64 order-sensitive repetitions miss it with p < 2e-4
 	denom = "ulava"
 )
 
@@ -74,6 +77,9 @@ func (staking) BondDenom(sdk.Context) string { return denom }
 var cds = map[string]types.CollectionData{
 	"c1": {ApiInterface: types.APIInterfaceJsonRPC, Type: "POST"},
 	"c2": {ApiInterface: types.APIInterfaceRest, Type: "GET"},
+	// differ from c1 ONLY in the internal path
+	"c1/p1": {ApiInterface: types.APIInterfaceJsonRPC, InternalPath: "/p1", Type: "POST"},
+	"c1/p2": {ApiInterface: types.APIInterfaceJsonRPC, InternalPath: "/p2", Type: "POST"},
 }
 
 func cdName(cd types.CollectionData) string {
@@ -213,11 +219,19 @@ func main() {
 		for j := len(names) - 1; j >= 0; j-- {
 			k2.SetSpec(ctx2, mkSpec(names[j], db[names[j]]))
 		}
+		nruns := runs
+		for _, sp := range db {
+			for _, c := range sp.Cols {
+				if strings.Contains(c.CD, "/") {
+					nruns = runsPaths
+				}
+			}
+		}
 		ln := line{ID: id, DB: db, Res: map[string]result{}}
 		for _, n := range names {
 			cls, cols, fp, pan := expandOnce(k, ctx, n)
 			r := result{Err: cls, Cols: cols, Same: true, Panic: pan}
-			for i := 1; i < runs; i++ {
+			for i := 1; i < nruns; i++ {
 				kk, cc := k, ctx
 				if i%2 == 0 {
 					kk, cc = k2, ctx2
